@@ -457,6 +457,32 @@ print(json.dumps(out))
 '''
 
 
+BOOT_MP = r'''
+import sys, os, json, multiprocessing as mp
+
+
+def work(base):
+    # the FIRST import of pybes3 after the table update happens here, in a worker process; the driver never imports it
+    sys.meta_path[:] = [f for f in sys.meta_path if type(f).__name__ != "ScikitBuildRedirectingFinder"]
+    sys.path.insert(0, base)
+    import numpy as np
+    import pybes3 as p3
+    return {"file": p3.__file__, "mdc": [float(x).hex() for x in p3.mdc_gid_to_east_x(np.array([0, 1, 2]))],
+            "emc": [float(x).hex() for x in p3.emc_gid_to_center_x(np.array([0, 1]))]}
+
+
+if __name__ == "__main__":
+    if sys.argv[3] == "executor":
+        from concurrent.futures import ProcessPoolExecutor
+        with ProcessPoolExecutor(1, mp_context=mp.get_context("spawn")) as ex:
+            out = ex.submit(work, sys.argv[1]).result()
+    else:
+        with mp.get_context(sys.argv[3]).Pool(1) as pool:
+            out = pool.apply(work, (sys.argv[1],))
+    print(json.dumps(out))
+'''
+
+
 def e2e(src, level):
     import numpy as np
     src = Path(src)
@@ -477,6 +503,7 @@ def e2e(src, level):
             raise RuntimeError("prebuilt besio_cpp extension not found")
         shutil.copyfile(sos[0], pkg / "besio" / sos[0].name)
         (root / "boot.py").write_text(BOOT)
+        (root / "bootmp.py").write_text(BOOT_MP)
         geom = pkg / "detectors" / "geometry"
         pyc = geom / "__pycache__"
 
@@ -487,7 +514,10 @@ def e2e(src, level):
             env["PYTHONDONTWRITEBYTECODE"] = "1"
             if cache_dir:
                 env["NUMBA_CACHE_DIR"] = str(cache_dir)
-            p = subprocess.run([sys.executable, str(root / "boot.py"), str(base or (root / "pkg")), mode], env=env, cwd=str(root),
+            script = "boot.py"
+            if mode.startswith("mp:"):
+                script, mode = "bootmp.py", mode[3:]
+            p = subprocess.run([sys.executable, str(root / script), str(base or (root / "pkg")), "x" if script == "bootmp.py" else mode] + ([mode] if script == "bootmp.py" else []), env=env, cwd=str(root),
                                capture_output=True, text=True, timeout=600)
             if p.returncode != 0:
                 raise RuntimeError(f"interpreter run '{mode}' failed: {p.stderr[-1500:]}")
@@ -577,6 +607,14 @@ def e2e(src, level):
         run("clear", base=farm)
         left = sorted(q.name for q in fpyc.iterdir() if q.suffix in (".nbi", ".nbc")) if fpyc.is_dir() else []
         expect(left == [], "e2e:forced-clear-leaves-files:link-farm-install", f"left after clear_numba_cache(): {left}")
+        c = run("use")
+        # M: the first import after a table update is made by a multiprocessing worker (driver imports nothing; task imports lazily)
+        for how in (["spawn"] if level != "full" else ["spawn", "forkserver", "fork", "executor"]):
+            newm = bump("mdc_geom.npz", "east_x")
+            m1 = run("mp:" + how)
+            expect(m1["mdc"][0] == newm, f"e2e:stale-value-after-table-update:import-in-worker:{how}",
+                   f"after mdc_geom.npz changed (east_x[0] -> {newm}) the next import of pybes3 was made by a multiprocessing worker ({how}); "
+                   f"its lookup mdc_gid_to_east_x(0) returned {m1['mdc'][0]}")
         c = run("use")
         if level == "full":
             # D/E: interrupted clean-up (after 1 removal), then retry
